@@ -117,7 +117,7 @@ theorem generated_handouts_cover_routes :
     ["get_state", "get_descriptor", "descriptor_tx.get_state", "entities.by_handle.state", "entities.by_handle.descriptor",
      "result_vs_table", "result_vs_handed_out", "handed_out_vs_table_after_commit", "get_context_state_after_commit",
      "context_result_vs_table", "entities.by_handle.states", "entities.by_node_type.states",
-     "entities.by_parent_handle.states", "entities.items.states", "entity.update.states", "entity.update.state"].all (fun r => Generated.handOuts.any (fun h => h.1 == r)) = true := by decide +kernel
+     "entities.by_parent_handle.states", "entities.items.states", "entity.update.states", "entity.update.state", "mdib.get_entity", "mdib.get_context_entity"].all (fun r => Generated.handOuts.any (fun h => h.1 == r)) = true := by decide +kernel
 
 /-! ### known finding: a failure of the observers that send the reports is not rolled back
 `_transaction_manager` assigns `self.transaction = result` (observers serialise and send the reports) after
